@@ -67,7 +67,7 @@ Fixpoint flatten (t : tree) : list leaf :=
 
 Definition flatten_forest (l : list tree) : list leaf := flat_map flatten l.
 
-Inductive atom := AWord (w : list Z) | AChar (c : Z).
+Inductive atom := AWord (w : list Z) | AChar (c : Z) | ANode (h : head).
 
 Section Words.
   Context (keep : Z -> bool).     (* which characters are running text (the harness: letters and digits) *)
@@ -75,6 +75,20 @@ Section Words.
     match l with LArg w => [AWord w] | LText s => map AChar (filter keep s) end.
   Definition words (ls : list leaf) : list atom := flat_map leaf_words ls.
 End Words.
+
+(* the same reading with the nodes themselves in it: [reading vis keep t] lists, depth-first, every node whose head is
+   visible, then its argument words, then its content; text leaves give their kept characters.  With no head visible it
+   is [words keep (flatten t)].  Two trees with the same reading hold the same visible nodes, each the same number of times,
+   in the same order. *)
+Section Reading.
+  Context (vis : head -> bool) (keep : Z -> bool).
+  Fixpoint reading (t : tree) : list atom :=
+    match t with
+    | Text _ s => map AChar (filter keep s)
+    | Node h ch => (if vis h then [ANode h] else []) ++ map AWord (h_args h) ++ flat_map reading ch
+    end.
+  Definition reading_forest (l : list tree) : list atom := flat_map reading l.
+End Reading.
 
 (* ---- sectioning well-formedness ---------------------------------------------------------------- *)
 
@@ -97,6 +111,56 @@ Fixpoint wf_sections_b (t : tree) : bool :=
 Inductive subtree : tree -> tree -> Prop :=
 | sub_refl t : subtree t t
 | sub_child x h ch c : In c ch -> subtree x c -> subtree x (Node h ch).
+
+(* ---- well-nested input ------------------------------------------------------------------------------ *)
+
+(* syntax trees of well-nested input: text tokens, plain commands (with the children their arguments gave them), and
+   environments  begin ... end  (declarations like \\bf ... closing marker included).  [print] is the item sequence the
+   expander yields for it, [den] the tree the property wants: an environment node holding exactly what stands between its
+   begin and its end. *)
+Inductive ast :=
+| AText (h : head) (s : list Z)
+| ALeaf (h : head) (pre : list tree)
+| AEnv (h he : head) (body : list ast).
+
+Fixpoint print (a : ast) : list tree :=
+  match a with
+  | AText h s => [Text h s]
+  | ALeaf h pre => [Node h pre]
+  | AEnv h he body => Node h [] :: flat_map print body ++ [Node he []]
+  end.
+
+Fixpoint den (a : ast) : tree :=
+  match a with
+  | AText h s => Text h s
+  | ALeaf h pre => Node h pre
+  | AEnv h he body => Node h (map den body)
+  end.
+
+Definition depth_of (t : tree) : Z := h_depth (hd_of t).
+
+(* a child [t] fits into an environment with head [ph]: it is not a paragraph break, not of a lower level, not an end marker of
+   the environment's own class, and not from an outer grouping depth *)
+Definition fits (ph : head) (t : tree) : Prop :=
+  level t <> PAR_LEVEL /\ h_level ph <= level t /\
+  (is_elem t = true -> h_mode (hd_of t) = 2 -> h_typ (hd_of t) <> h_typ ph) /\
+  (DOC_LEVEL < h_level ph -> h_depth ph <= depth_of t).
+
+Section Oks.
+  Context (okf : ast -> Prop) (fit : tree -> Prop).
+  Fixpoint oks (l : list ast) : Prop :=
+    match l with [] => True | b :: l' => okf b /\ fit (den b) /\ oks l' end.
+End Oks.
+
+Fixpoint ok (a : ast) : Prop :=
+  match a with
+  | AText _ _ => True
+  | ALeaf h _ => h_kind h = KLeaf \/ h_kind h = KText
+  | AEnv h he body =>
+      h_kind h = KEnv /\ h_mode h <> 2 /\ h_force h = false /\
+      h_mode he = 2 /\ h_typ he = h_typ h /\ h_level he <> PAR_LEVEL /\ h_level h <= h_level he /\
+      (fix go (l : list ast) : Prop := match l with [] => True | b :: l' => ok b /\ fits h (den b) /\ go l' end) body
+  end.
 
 (* ---- typographic substitution -------------------------------------------------------------------- *)
 
